@@ -2,7 +2,7 @@
 # tools_confirm.sh <mutant-dir>... : confirms seeded changes in a scratch worktree of /repo under /tmp:
 # applies the patch, builds, runs the whole test suite, runs demo.bas on the changed and the unchanged tree.
 # Writes <mutant-dir>/confirm.json. The worktree is removed at the end.
-WT=/tmp/confirm_wt
+WT=/tmp/confirm_wt${SLOT:-}
 git -C /repo worktree remove --force $WT 2>/dev/null
 git -C /repo worktree add --detach $WT HEAD -q || exit 2
 cd $WT
